@@ -299,7 +299,7 @@ def run(ctx):
         else:
             ctx.absorb(ctx.run_engine(binary, rp["test"], inp), "prims", rp["test"])
         return ctx.finish("model_checking", "replay of one recorded behaviour")
-    only = [p for p in os.environ.get("VERIF_G06_ONLY", "").split(",") if p] or list(PRIMS)
+    only = list(ctx.options.get("only") or []) or [p for p in os.environ.get("VERIF_G06_ONLY", "").split(",") if p] or list(PRIMS)
     tlc_phase(ctx, only)
     # the bindings of different primitives are independent processes: two at a time
     with ThreadPoolExecutor(max_workers=max(1, min(3, int(os.environ.get("VERIF_G06_BIND_PAR", "2"))))) as ex:
